@@ -464,17 +464,31 @@ func VerifIn() {
 	if rc == vcList {
 		// lists may hold lists and maps (load_json output): membership of a container among
 		// containers is decided by deep equality and must not crash
-		switch verifnd.Choice(3) {
+		switch verifnd.Choice(5) {
 		case 1:
 			rv = append(rv.([]any), []any{int64(1), int64(2)})
 		case 2:
 			rv = append(rv.([]any), map[string]any{"a": int64(1)})
+		case 3: // maps that differ only in WHICH key holds nil (an absent key is not a nil-valued key)
+			rv = append(rv.([]any), map[string]any{"id": int64(7), "error": nil})
+		case 4:
+			rv = append(rv.([]any), []any{map[string]any{"error": nil}}, map[string]any{"id": int64(7), "err": nil})
 		}
-		if lc == vcList && verifnd.Int(0, 1) == 1 {
-			lv = []any{int64(1), int64(2)}
+		if lc == vcList {
+			switch verifnd.Choice(3) {
+			case 1:
+				lv = []any{int64(1), int64(2)}
+			case 2:
+				lv = []any{map[string]any{"err": nil}}
+			}
 		}
-		if lc == vcMap && verifnd.Int(0, 1) == 1 {
-			lv = map[string]any{"a": int64(1)}
+		if lc == vcMap {
+			switch verifnd.Choice(3) {
+			case 1:
+				lv = map[string]any{"a": int64(1)}
+			case 2:
+				lv = map[string]any{"id": int64(7), "err": nil}
+			}
 		}
 	}
 	lk, rk := verifnd.Choice(4), verifnd.Choice(4)
